@@ -132,6 +132,8 @@ def main():
                               {"cell": cell, "name": name, "level": level, "mode": mode, "window": w, "error": errtxt})
             if "HISTORY-DEPENDENT-VERDICT" in errtxt:
                 chk.violation("verdict-depends-on-history|m%d" % mode, "%s: %s" % (cell, errtxt[:200]), {"cell": cell, "detail": errtxt})
+            if "ORDER-DEPENDENT-VERDICT" in errtxt:
+                chk.violation("verdict-depends-on-setter-order|m%d" % mode, "%s: %s" % (cell, errtxt[:240]), {"cell": cell, "detail": errtxt})
             if "draw cap" in errtxt:
                 chk.violation("initialisation-does-not-terminate|m%d" % mode, "%s: the request was not answered: initialize() consumed more than 2e6 deviates (%s)" % (cell, errtxt[:80]), {"cell": cell})
             if "THROWS-BUT-INITIALIZED" in errtxt:
@@ -149,7 +151,7 @@ def main():
         "rule": "grid = (51 isotopes + 4 unknown/mis-cased names) x levels -100, -2, -1..17 x modes 0..25 x {no window, valid, inverted, lower-bound-only, upper-bound-only, negative lower bound, above the kinematic "
                 "range}; each cell is configured through decay0_generator and initialised; verdict compared with an executable model of the stated rules "
                 "(tables parsed from the reference source; gA datasets synthesised); accepted cells shoot 20 events through the C04 monitor, rejected "
-                "cells must not shoot; every request is also put to one long-lived generator object per process (reset between requests) and must get the same verdict; distinct = distinct (mode, window kind, model verdict, generator verdict) classes observed",
+                "cells must not shoot; every request is also put to one long-lived generator object per process (reset between requests) and must get the same verdict, and so must a fresh object given the same settings in a permuted order of setter calls (every third one after a detour through the other category); distinct = distinct (mode, window kind, model verdict, generator verdict) classes observed",
         "samples": samples or [{"note": "none"}],
         "cells": len(cells),
         "accepted": n_acc,
